@@ -5,7 +5,7 @@ from harness import dtwgen
 
 COQ_FILES = ["theories/BandTie.v", "theories/Traceback.v", "theories/RelaxedEnd.v", "theories/RelaxedEndSpec.v",
              "theories/TracebackC.v", "gen/Gen_ctrace.v", "theories/CTrace.v", "theories/CFillSim.v", "theories/CTraceSim.v", "theories/CTraceSpec.v", "theories/CFillTrace.v",
-             "gen/Gen_cwpsk.v", "theories/CWpsCanon.v", "theories/CWpsKernel.v", "theories/CWpsTie.v", "theories/CWpsSpec.v", "gen/Gen_cexpw.v", "theories/CWpsCanonEu.v", "theories/CWpsTieEu.v", "theories/CWpsValue.v", "theories/CWpsSpecEu.v", "theories/CWpsPrune.v", "theories/CWpsSpecB.v", "theories/CWpsSpecBEu.v", "theories/CWpsValueB.v", "theories/CExpW.v", "gen/Gen_cparts.v", "theories/CParts.v", "theories/CWpsFinal.v",
+             "gen/Gen_cwpsk.v", "theories/CWpsCanon.v", "theories/CWpsKernel.v", "theories/CWpsTie.v", "theories/CWpsSpec.v", "gen/Gen_cexpw.v", "theories/CWpsCanonEu.v", "theories/CWpsTieEu.v", "theories/CWpsValue.v", "theories/CWpsSpecEu.v", "theories/CWpsPrune.v", "theories/CWpsSpecB.v", "theories/CWpsSpecBEu.v", "theories/CWpsValueB.v", "theories/CExpW.v", "theories/CWpsMarks.v", "gen/Gen_cparts.v", "theories/CParts.v", "theories/CWpsFinal.v",
              "props/C05.v"]
 THEOREMS = [("DVProps.C05", "C05_traced_path_cost"), ("DVProps.C05", "C05_traced_path_contiguous"),
             ("DVProps.C05", "C05_traced_path_on_finite_cells"), ("DVProps.C05", "C05_executable_is_model"),
